@@ -48,6 +48,10 @@ CLAIMED = {
          PBT + " and coverage-guided fuzzing (cargo-fuzz/libFuzzer targets over the same entry function): mutated valid messages and raw bytes; oracle = call returns, no panic/overflow, no unresolved future, other request's reply still delivered",
          "Valid hellos/replies from the grammars damaged by generated mutation sequences (truncate, delete, flip, insert markup, duplicate element, absurd numbers, invalid UTF-8, 11000-deep nesting, splice, wrong namespace, missing/doubled delimiter) or replaced by raw bytes, fed through a real session with a second outstanding request whose valid reply arrives afterwards. Builds keep debug assertions and overflow checks.",
          "Bytes are handed over as one framed message (framing is C06). Non-termination inside one call is caught by the watchdog / libFuzzer -timeout and reported as inconclusive until reproduced."),
+ "C16": ("exploration", "DESIGN.md section 3 C16",
+         PBT + ": generated running configurations rendered raw (attribute order, duplicated xmlns:jcmd, jcmd prefix, comment decoration, body shape under generator control); oracle = independent selection written from the property text, expressions compared by AST",
+         "0..8 generated policy statements per configuration through the agent's real session and candidate reader; the selected (name, expression) pairs must equal an independent selection (active, annotated with a parseable expression, body exactly a default reject); duplicate selected names must be rejected.",
+         "'Inactive' = jcmd:active=\"false\"; decorations are the /* */ family; expressions compared through the rpsl parser (a dependency, not code under test)."),
  "C18": ("exploration", "DESIGN.md section 3 C18",
          PBT + ": C05's schedule-owning executor plus drop actions at generated suspension points; oracle = survivors resolve with their own tag at quiescence and a further request completes",
          "C05's worlds with 1..2 drops of a waiter task (never polled / polled / polled while a send is pending and the request map is locked). Every surviving request must still resolve with its own reply and the session must stay usable. The confirmed defect (reply lost when the reader is dropped at the request-map lock) was repaired; its minimal schedule is a regression input.",
